@@ -106,7 +106,7 @@ func main() {
 		})
 	}
 	replace := map[string]string{}
-	nFuncs, nFiles, nVars := 0, 0, 0
+	nFuncs, nFiles, nVars, nStmts := 0, 0, 0, 0
 	for _, dir := range dirs {
 		rel, _ := filepath.Rel(repo, dir)
 		if skipPkgs[rel] {
@@ -219,6 +219,69 @@ func main() {
 				}
 				ins = append(ins, insertion{fset.Position(fd.Body.Lbrace).Offset + 1, "verifrt.VerifSchedPoint();"})
 				nFuncs++
+				// and in front of every statement that mentions one of them (for compound statements: in
+				// their header), so that a check-then-act sequence inside one function can be split
+				refs := func(n ast.Node) bool {
+					if n == nil || n == ast.Node(nil) {
+						return false
+					}
+					found := false
+					ast.Inspect(n, func(m ast.Node) bool {
+						if _, isLit := m.(*ast.FuncLit); isLit {
+							return false
+						}
+						if id, ok := m.(*ast.Ident); ok && mutable[id.Name] {
+							found = true
+						}
+						return !found
+					})
+					return found
+				}
+				var visitList func(list []ast.Stmt)
+				visitStmt := func(st ast.Stmt) bool { // does st itself (not its nested blocks) mention package state?
+					switch v := st.(type) {
+					case *ast.IfStmt:
+						return (v.Init != nil && refs(v.Init)) || refs(v.Cond)
+					case *ast.ForStmt:
+						return (v.Init != nil && refs(v.Init)) || (v.Cond != nil && refs(v.Cond))
+					case *ast.RangeStmt:
+						return refs(v.X)
+					case *ast.SwitchStmt:
+						return (v.Init != nil && refs(v.Init)) || (v.Tag != nil && refs(v.Tag))
+					case *ast.TypeSwitchStmt, *ast.SelectStmt, *ast.BlockStmt, *ast.LabeledStmt, *ast.DeclStmt, *ast.EmptyStmt:
+						return false
+					}
+					return refs(st)
+				}
+				visitList = func(list []ast.Stmt) {
+					for i, st := range list {
+						if i > 0 || true {
+							if visitStmt(st) {
+								ins = append(ins, insertion{fset.Position(st.Pos()).Offset, "verifrt.VerifSchedPoint();"})
+								nStmts++
+							}
+						}
+						ast.Inspect(st, func(m ast.Node) bool {
+							switch b := m.(type) {
+							case *ast.FuncLit:
+								return false
+							case *ast.BlockStmt:
+								if b != nil && ast.Node(b) != ast.Node(st) {
+									visitList(b.List)
+									return false
+								}
+							case *ast.CaseClause:
+								visitList(b.Body)
+								return false
+							case *ast.CommClause:
+								visitList(b.Body)
+								return false
+							}
+							return true
+						})
+					}
+				}
+				visitList(fd.Body.List)
 			}
 			if len(ins) == 0 {
 				continue
@@ -260,5 +323,5 @@ func main() {
 		fmt.Fprintln(os.Stderr, "instr:", err)
 		os.Exit(2)
 	}
-	fmt.Printf("instr: %d scheduling points in %d files (%d mutated package variables)\n", nFuncs, nFiles, nVars)
+	fmt.Printf("instr: scheduling points at %d function entries and %d statements in %d files (%d mutated package variables)\n", nFuncs, nStmts, nFiles, nVars)
 }
